@@ -18,7 +18,10 @@ TECHNIQUE = ('W1 compile-time witness: the guard text emitted by DivNode.generat
              'handed to `clang -fsyntax-only` as _Static_assert (clang as parser / constant evaluator; nothing is compiled to code or run); clang JSON AST of the specialised '
              'CMath.c helper for unguarded signed / and %; P2 dead-branch analysis of the Tempita conditions against the dispatch dictionary of the template; '
              'save/restore dataflow for directive scopes; receiver analysis of the safety-directive reads; OVF magnitude (interval) analysis of the expanded PyLongBinop '
-             'template on every path over the complete model space sizeof(long) x PyLong_SHIFT x digit count, with the constant bound taken from Optimize.py')
+             'template on every path over the complete model space sizeof(long) x PyLong_SHIFT x digit count, with the constant bound taken from Optimize.py; '
+             'fourth round: partial evaluation of Buffer.put_buffer_lookup_code on a model code writer for all flag combinations, the emitted C executed with C conversion rules on the complete partition of an '
+             'index relative to the extent (BOUNDS); the index predicate all fast paths share evaluated the same way (VALIDX); decision table of the unbound / uninitialised check of NameNode and shape of the '
+             'emitted checks (INIT); magnitude analysis of the shift counts of the PyLongBinop fast path with the admitted count range extracted from the Optimize.py handlers, plus a validated-shift typestate (SHIFTW)')
 DECIDES = ('C36-W1: for every operator handled by DivNode and its subclasses (/, //, %) and T in the signed integer types of rank >= int taken from PyrexTypes.rank_to_type_name: '
            'C leaves T_MIN / -1 and T_MIN % -1 undefined (C11 6.5.5p6), so either the guard the generator emits before the operation is true for (T_MIN, (T)-1) on the '
            'host data model — and false for (T_MIN, 1) and (7, -1) — or the C helper performing the operation (section loaded by the node, specialised for T) contains no '
@@ -33,8 +36,14 @@ DECIDES = ('C36-W1: for every operator handled by DivNode and its subclasses (/,
            'C36-OVF: for every operator of PyLongBinop whose result can exceed its operands (c_op + - *), both operand orders, sizeof(long) in {4, 8}, every PyLong_SHIFT of '
            'longintrepr.h and every digit count, each signed + - * and unary - executed on a path of __Pyx_Unpacked_<name> has a result bound that fits the C type it is '
            'evaluated in, where |digit| < 2**SHIFT, |pylong_join(N, ..)| < 2**(N*SHIFT) and |constant| <= the cut-off optimise_numeric_binop admits for that operator '
-           '(head-room tests `8*sizeof(T)-1 > N*PyLong_SHIFT[+h]` are evaluated, not pattern-matched: any equivalent formulation passes, any that admits an overflowing size fires).')
-NOT_DECIDED = ('everything a sanitizer would observe at run time: arithmetic inside the C helpers other than the + - * fast path of PyLongBinop (overflow of i + size, shifts inside __Pyx_PyLong_* beyond the dead-branch check, the / and % blocks whose q*b term needs relational reasoning), '
+           '(head-room tests `8*sizeof(T)-1 > N*PyLong_SHIFT[+h]` are evaluated, not pattern-matched: any equivalent formulation passes, any that admits an overflowing size fires). '
+           'C36-BOUNDS: for boundscheck x wraparound x negative_indices x signed/unsigned index, the C emitted by Buffer.put_buffer_lookup_code (buffer AND memoryview element access) takes the error exit exactly '
+           'for indices outside [0, extent) after the enabled wrap-around and accesses the wrapped index; without boundscheck it wraps negative indices exactly when wraparound is on. '
+           'C36-VALIDX: __Pyx_is_valid_index(i, limit) <=> 0 <= i < limit. C36-INIT: NameNode emits the unbound check for a local iff it may be NULL, NULL is not allowed and it is an object or a memoryview under '
+           'initializedcheck; put_error_if_unbound and the memoryview-attribute check test `!value`, raise and take the error exit. '
+           'C36-SHIFTW: every << / >> of the Lshift / Rshift fast path has a count below the width of the shifted type for every constant the Optimize.py handlers admit (host data model: finding, others: information), '
+           'and every signed left shift whose result need not fit is validated by a round-trip comparison before it is returned.')
+NOT_DECIDED = ('everything a sanitizer would observe at run time: arithmetic inside the C helpers other than the + - * and shift fast path of PyLongBinop (overflow of i + size, shifts inside __Pyx_PyLong_* and pylong_join, the / and % blocks whose q*b term needs relational reasoning), that every array access of the C helpers sits behind __Pyx_is_valid_index (C15 decides the item fast paths), '
                'that the guard is emitted before the operation is evaluated, polarity of each directive read (C15/C16 decide it for the index paths), none checks (off by default), '
                'use-after-free and alignment. DESIGN clause (b) "I6 for bounds/wraparound flags" is NOT armed here: on the emitted calls that carry these flags the generic '
                'mutual-swap rule has 3 resolvable sites and cannot see a swap (C parameter has_cstart vs Python name has_c_start), while C15-FLAGS / C15-SLICE / C16-TPL decide '
@@ -75,6 +84,11 @@ MUTATIONS = [
     ('Cython/Utility/Optimize.c', 'PyLongBinop calculate_long for `*`: `lla = a; goto calculate_long_long` -> `{ long x = a * b; return PyLong_FromLong(x); }`', 'C36-OVF ovf:Multiply*:size1:a * b'),
     ('Cython/Utility/Optimize.c', 'PyLongBinop: head-room `+30` -> `+10` in both tests', 'C36-OVF ovf:Multiply*:size3:lla * llb'),
     ('Cython/Utility/Optimize.c', 'PyLongBinop: long long test `{{_size}} * PyLong_SHIFT` -> `{{_size-1}} * PyLong_SHIFT`', 'C36-OVF ovf:Add*/Subtract*/Multiply*:size3'),
+    # fourth round: stored under /verif/mutants/C36/<name>/ and replayed by the thorough tier
+    ('Cython/Compiler/Buffer.py', 'buf-bounds-gt / buf-wrap-recheck / buf-wraponly-sign / buf-failed-test-inverted / buf-nowrap-accepts-negative', 'C36-BOUNDS'),
+    ('Cython/Utility/TypeConversion.c', 'valid-index-le / valid-index-signed', 'C36-VALIDX'),
+    ('Cython/Compiler/ExprNodes.py, Code.py', 'init-memslice-inverted / init-maybe-null-unchecked / init-unbound-polarity / init-attr-no-goto', 'C36-INIT'),
+    ('Cython/Compiler/Optimize.py, Cython/Utility/Optimize.c', 'shift-count-64 (handler admits 64) / shift-validate-dropped (round-trip test of the long long shift removed)', 'C36-SHIFTW'),
     ('Cython/Utility/CMath.c', 'FIX variant: ModInt `if (b == -1) return 0;` before `a %% b`', 'C36-W1 mod:* go silent'),
     ('Cython/Compiler/ExprNodes.py', 'FIX variant: guard `sizeof(%s) >= sizeof(int)` and __Pyx_UNARY_NEG_WOULD_OVERFLOW generalised', 'C36-W1 div:int goes silent'),
 ]
@@ -654,4 +668,7 @@ def rule_scope(ctx):
 
 def run(ctx):
     from ..rules import slicenorm, sC36
-    return [rule_w1(ctx), rule_p2(ctx), rule_scope(ctx), rule_V3_attr(ctx, rid='C36-V3'), slicenorm.rule_slice(ctx), sC36.rule_ovf(ctx)]
+    rules = [rule_w1(ctx), rule_p2(ctx), rule_scope(ctx), rule_V3_attr(ctx, rid='C36-V3'), slicenorm.rule_slice(ctx), sC36.rule_ovf(ctx)]
+    # fourth round: the emitted index checks, the index predicate all fast paths share, initialisation checks, shift widths
+    rules += [sC36.rule_bounds(ctx), sC36.rule_validx(ctx), sC36.rule_init(ctx), sC36.rule_shiftw(ctx)]
+    return rules
